@@ -23,7 +23,9 @@ META = {
     'level_text': 'Full proof on the model: for every signature, callback, value list and prior patch state, a rejected configuration '
                   'call performs no write to the executable image, mocks no target that was not mocked, leaves the registry '
                   'unchanged or with exactly one inert entry for the target (proved harmless), every listed mistake class is '
-                  'rejected, acceptance implies matching counts and slot sizes, the erro.Cause walk ends at the typed cause, and the same '
+                  'rejected, acceptance implies matching counts and slot sizes, for EVERY rejection of every producer the chain is well formed and '
+                  'the erro.Cause walk (transcribed from erro/traceable.go, and equal to the walk the probe performs) ends at the typed cause of '
+                  'its class or at the panic string for the string-panicking producers, and the same '
                   'no-op guarantee holds for a rejected call at any point of a configuration sequence on one mocker. '
                   'The model is tied to the source by running it against the real API on every generated call.',
     'level_note': 'Trusted: Lean kernel (propext, Classical.choice, Quot.sound), the hand transcription Model/Reject.lean (checked against '
